@@ -323,6 +323,9 @@ func genDesc(r *core.Rand) *elfref.Desc {
 		// no code at all, but something loadable
 		d.Progs = append(d.Progs, elfref.Prog{Type: elfref.PTLoad, Flags: 6, Off: dataOff, Vaddr: dataAddr, Filesz: dataSize, Memsz: dataSize + bss})
 	}
+	if odd(12) {
+		d.NoNull = true // the section table starts with a real section
+	}
 	if r.Bool() {
 		d.Phoff = 64
 		if d.Class == 1 {
